@@ -107,9 +107,11 @@ def operatorRange (d : Doc) (o : TextObject) : Int × Int :=
   | .linewise =>
     (lineStartI d.text (s + d.cur) - d.cur, lineEndI d.text (e + d.cur) - d.cur)
 
-/-- `TextObject.spans_nothing(document)` -/
+/-- `TextObject.spans_nothing(document)`: the range, cut off at the end of the text, is empty
+    (`end = min(end, len(text) - cursor)`) -/
 def spansNothing (d : Doc) (o : TextObject) : Bool :=
-  o.type != .linewise && decide ((operatorRange d o).1 ≥ (operatorRange d o).2)
+  o.type != .linewise &&
+    decide ((operatorRange d o).1 ≥ min (operatorRange d o).2 ((d.text.length : Int) - d.cur))
 
 /-- `TextObject.get_line_numbers(buffer)` -/
 def getLineNumbers (d : Doc) (o : TextObject) : Int × Int :=
@@ -486,9 +488,29 @@ def run (env : Env) (s : St) (opArg : Option Nat) (op : Op) (motArg : Option Nat
   let count := combineArgs opArg motArg
   applyOp env s op (textObject env.isSpace env.reSpace s.doc count m) count
 
+/-- `KeyProcessor._fix_vi_cursor_position`: after every handler in navigation mode the cursor
+    is pulled back from the end of a non-empty line. -/
+def fixViCursor (t : Text) (cur : Nat) : Nat :=
+  let d : Doc := { text := t, cur := cur }
+  if (currentChar d = some '\n' ∨ currentChar d = none) ∧ (currentLine d).length > 0
+  then cur - 1 else cur
+
+def St.fix (s : St) : St := if s.insert then s else { s with cur := fixViCursor s.text s.cur }
+
+/-- the whole key sequence `[count] <operator> [count] <motion>` through the key processor:
+    a leading count is a handler of its own and is followed by the fix (the operator key is
+    not: `vi_navigation_mode` is false while an operator is pending); the text-object handler
+    clears the operator and is followed by the fix again -/
+def runKeys (env : Env) (s : St) (opArg : Option Nat) (op : Op) (motArg : Option Nat) (m : Motion) :
+    Option St :=
+  (run env (if opArg.isSome then s.fix else s) opArg op motArg m).map St.fix
+
 /-- `[count] <motion>` typed alone in navigation mode: `cursor_position += text_object.start` -/
 def moveAlone (env : Env) (s : St) (motArg : Option Nat) (m : Motion) : Nat :=
   let count := match motArg with | some n => (if normArg n = 0 then 1 else normArg n) | none => 1
   clampCur ((s.cur : Int) + (textObject env.isSpace env.reSpace s.doc count m).start) s.text.length
+
+def moveAloneKeys (env : Env) (s : St) (motArg : Option Nat) (m : Motion) : Nat :=
+  fixViCursor s.text (moveAlone env (if motArg.isSome then s.fix else s) motArg m)
 
 end Ptk.C08
